@@ -11,17 +11,16 @@ pub mod l0 {
       relation r0(i64, i64);
       relation r1(i64, i64, i64);
       relation r2(i64);
-      lattice r3(Dual<i64>);
-      lattice r4(i64, Option<i64>);
-      r3(Dual(4)) <-- r1(v0, v1, v1) if ((*v0) < 2);
-      r3(Dual((*v1))) <-- r3(v0), r2(v1) if ((*v1) < 5);
-      r3(Dual(((v0.0) + 1))) <-- r3(v0), r3(v1);
-      r4(v1, Some(0)) <-- r0(v0, v1) if ((*v1) < 4);
-      r4(v0, Some((*v2))) <-- r4(v0, v1), r2(v2);
-      r3(Dual((*v1))) <-- r0(v0, v1);
-      r4(v1, v0) <-- r4(0, v0), r0(v1, v2);
-      r4(2, Some(1)) <-- r3(v0);
-      r4(0, Some(1)) <-- r3(v0);
+      lattice r3(Set<i64>);
+      lattice r4(i64, i64);
+      r3(Set::singleton(4)) <-- r1(v0, v1, v1) if ((*v0) < 2);
+      r3(Set::singleton((*v1))) <-- r3(v0), r2(v1) if ((*v1) < 5);
+      r3(v0) <-- r3(v0), r3(v1);
+      r4(v0, 2) <-- r0(v0, v0);
+      r4(v2, v1) <-- r4(v0, v1) if ((*v0) < 3), r1(v2, v3, v2) if ((*v0) < 5);
+      r4(v2, v1) <-- r4(v0, v1) if ((*v0) < 6), r4(v2, v3);
+      r2(v0) <-- r1(v0, v0, v0);
+      r1(v1, 1, 2) <-- r1(2, v0, v1) if ((*v1) < 3);
    }
    pub struct Inst { p: Prog, pool: Option<ascent::rayon::ThreadPool> }
    pub fn make(pool: Option<usize>) -> Box<dyn Driver> {
@@ -35,13 +34,14 @@ pub mod l0 {
          0 => { let v: Vec<(i64,i64,)> = parse_rows(rows)?; if append { self.p.r0.extend(v) } else { self.p.r0 = v } },
          1 => { let v: Vec<(i64,i64,i64,)> = parse_rows(rows)?; if append { self.p.r1.extend(v) } else { self.p.r1 = v } },
          2 => { let v: Vec<(i64,)> = parse_rows(rows)?; if append { self.p.r2.extend(v) } else { self.p.r2 = v } },
-         3 => { let v: Vec<(Dual<i64>,)> = parse_rows(rows)?; if append { self.p.r3.extend(v) } else { self.p.r3 = v } },
-         4 => { let v: Vec<(i64,Option<i64>,)> = parse_rows(rows)?; if append { self.p.r4.extend(v) } else { self.p.r4 = v } },
+         3 => { let v: Vec<(Set<i64>,)> = parse_rows(rows)?; if append { self.p.r3.extend(v) } else { self.p.r3 = v } },
+         4 => { let v: Vec<(i64,i64,)> = parse_rows(rows)?; if append { self.p.r4.extend(v) } else { self.p.r4 = v } },
             _ => return None,
          }
          Some(())
       }
       fn run(&mut self) { match &self.pool { Some(pl) => { let p = &mut self.p; pl.install(|| p.run()) }, None => self.p.run() } }
+      fn run_here(&mut self) { self.p.run() }
       fn run_timeout(&mut self, k: usize) -> Option<bool> { let _ = k; None }
       fn dump(&self) -> String { vec![dump_rel(0, self.p.r0.iter().map(Row::render).collect()), dump_rel(1, self.p.r1.iter().map(Row::render).collect()), dump_rel(2, self.p.r2.iter().map(Row::render).collect()), dump_rel(3, self.p.r3.iter().map(Row::render).collect()), dump_rel(4, self.p.r4.iter().map(Row::render).collect())].join(" | ") }
       fn iters(&self) -> String { format!("iters {}", self.p.scc_iters.iter().map(|x| x.to_string()).collect::<Vec<_>>().join(" ")) }
@@ -58,15 +58,16 @@ pub mod l8 {
       pub struct Prog;
       relation r0(i64, i64, i64);
       relation r1(i64, i64);
-      lattice r2(i64, Option<i64>);
+      lattice r2(i64, i64);
       lattice r3(i64, Dual<i64>);
-      r2(v1, Some(4)) <-- r0(v0, v1, v0);
-      r2(v2, v1) <-- r2(v0, v1), r0(v2, v3, v3);
-      r3(v1, Dual(0)) <-- r1(v0, v1);
-      r3(v0, Dual(1)) <-- r3(v0, v1) if ((*v0) < 4), r3(v2, v3);
-      r3(v2, v3) <-- r2(v0, v1) if ((*v0) < 6), r3(v2, v3);
-      r2(v0, Some(3)) <-- r1(0, v0), r0(v0, v1, v1) if ((*v0) < 5);
-      r3(v0, Dual(4)) <-- r2(v0, v1) if ((*v0) < 6);
+      r2(v1, 4) <-- r0(v0, v1, v0);
+      r2(v3, v1) <-- r2(v0, v1), r0(v2, v3, v4);
+      r3(v2, Dual((*v1))) <-- r0(v0, v1, v2);
+      r3(v0, Dual((*v0))) <-- r3(v0, v1), r1(2, 3);
+      r3(v0, v1) <-- r3(v0, v1) if ((*v0) < 5), r3(v2, v3);
+      r1(v0, v1) <-- r0(v0, v1, v1);
+      r0(v0, v0, v0) <-- r2(v0, v1);
+      r0(((*v0) + 1), v0, 3) <-- r1(v0, v0) if ((*v0) < 3), r1(v1, v0), if ((*v0) < 6);
    }
    pub struct Inst { p: Prog, pool: Option<ascent::rayon::ThreadPool> }
    pub fn make(pool: Option<usize>) -> Box<dyn Driver> {
@@ -79,13 +80,14 @@ pub mod l8 {
          match rel {
          0 => { let v: Vec<(i64,i64,i64,)> = parse_rows(rows)?; if append { self.p.r0.extend(v) } else { self.p.r0 = v } },
          1 => { let v: Vec<(i64,i64,)> = parse_rows(rows)?; if append { self.p.r1.extend(v) } else { self.p.r1 = v } },
-         2 => { let v: Vec<(i64,Option<i64>,)> = parse_rows(rows)?; if append { self.p.r2.extend(v) } else { self.p.r2 = v } },
+         2 => { let v: Vec<(i64,i64,)> = parse_rows(rows)?; if append { self.p.r2.extend(v) } else { self.p.r2 = v } },
          3 => { let v: Vec<(i64,Dual<i64>,)> = parse_rows(rows)?; if append { self.p.r3.extend(v) } else { self.p.r3 = v } },
             _ => return None,
          }
          Some(())
       }
       fn run(&mut self) { match &self.pool { Some(pl) => { let p = &mut self.p; pl.install(|| p.run()) }, None => self.p.run() } }
+      fn run_here(&mut self) { self.p.run() }
       fn run_timeout(&mut self, k: usize) -> Option<bool> { let _ = k; None }
       fn dump(&self) -> String { vec![dump_rel(0, self.p.r0.iter().map(Row::render).collect()), dump_rel(1, self.p.r1.iter().map(Row::render).collect()), dump_rel(2, self.p.r2.iter().map(Row::render).collect()), dump_rel(3, self.p.r3.iter().map(Row::render).collect())].join(" | ") }
       fn iters(&self) -> String { format!("iters {}", self.p.scc_iters.iter().map(|x| x.to_string()).collect::<Vec<_>>().join(" ")) }
